@@ -95,19 +95,68 @@ class TypedScalarEq(Kernel):
     file = "einx/_src/util/lru_cache.py"
     module = "einx._src.util.lru_cache"
     qual = "_TypedScalar/__eq__"
-    describe = "_TypedScalar.__eq__ true => same Python type and equal value (2, 2.0 and True are different keys)"
+    describe = ("_TypedScalar.__eq__ true => same Python type, values equal under Python's ==, and the same sign of zero (2, 2.0 and True are different keys, and so are 0.0 and -0.0: "
+                "for built-in and numpy scalars of one type, == plus the sign of zero determines the value a traced function can observe; NaN is never == and never shares a key)")
 
     def setup(self, eng, bound=None):
         self.va, self.vb = z3.Const("va", Obj), z3.Const("vb", Obj)
         a = SRec("_TypedScalar", value=SObj(self.va))
         b = SRec("_TypedScalar", value=SObj(self.vb))
         a.isa = b.isa = ("_TypedScalar",)
+        self.pyeq = z3.Function("py_eq", Obj, Obj, B)  # Python's == on the two scalars: NOT identity (0.0 == -0.0, 1 == True)
+        self.negz = z3.Function("is_negative_zero", Obj, B)
+        eng.opaque_eq = lambda x, y: self.pyeq(x, y)  # noqa
+        eng.contracts["_is_negative_zero"] = SContract(lambda e, p, av, kw: SBool(self.negz(av[0].t)), "_is_negative_zero (C06.P.negative_zero)")
         return {"self": a, "other": b}, [], {}
 
     def post(self, eng, out, p):
         if isinstance(out, Return):
             ty = uf("type_of", Obj, Obj)
-            eng.oblige("post:__eq__ true => type(self.value) is type(other.value) and the values are equal", p, z3.Implies(eng.truth(out.v), z3.And(ty(self.va) == ty(self.vb), self.va == self.vb)), "post")
+            t = eng.truth(out.v)
+            eng.oblige("post:__eq__ true => type(self.value) is type(other.value)", p, z3.Implies(t, ty(self.va) == ty(self.vb)), "post")
+            eng.oblige("post:__eq__ true => the values are equal under Python's ==", p, z3.Implies(t, self.pyeq(self.va, self.vb)), "post")
+            eng.oblige("post:__eq__ true => both or neither value is a negative zero (0.0 and -0.0 are different keys)", p, z3.Implies(t, self.negz(self.va) == self.negz(self.vb)), "post")
+
+    def twin(self, tier):
+        """native: the real _TypedScalar on pairs of scalars that are == in Python: equal keys only for values that no function can tell apart"""
+        import itertools
+        import math
+        import numpy as np
+        from einx._src.util.lru_cache import _TypedScalar
+        vals = [0, 1, 2, -1, True, False, 0.0, -0.0, 1.0, 2.0, 2.5, np.float32(0.0), np.float32(-0.0), np.float64(0.0), np.float64(-0.0), np.int64(0), np.int32(1), np.int64(1), np.bool_(True), np.float32(2.0), float("inf"), -float("inf")]
+        n, fails = 0, []
+        for a, b in itertools.product(vals, repeat=2):
+            n += 1
+            same = type(a) is type(b) and a == b and (not isinstance(a, (float, np.floating)) or math.copysign(1.0, float(a)) == math.copysign(1.0, float(b)))
+            eq = _TypedScalar(a) == _TypedScalar(b)
+            if eq != same:
+                fails.append({"detail": f"_TypedScalar({a!r}: {type(a).__name__}) == _TypedScalar({b!r}: {type(b).__name__}) is {eq}, but the two values are {'indistinguishable' if same else 'distinguishable'}"})
+            if eq and hash(_TypedScalar(a)) != hash(_TypedScalar(b)):
+                fails.append({"detail": f"equal keys with different hashes for {a!r}, {b!r}"})
+        return n, fails[:3]
 
 
-KERNELS = [TensorEq(), ConvertibleTensorEq(), OtherClass("Tensor", {"origin": "obj", "shape": "seq"}), OtherClass("ConvertibleTensor", {"origin": "obj", "concrete": "obj", "shape": "obj"}), TypedScalarEq()]
+class NegativeZero(Kernel):
+    id = "C06.P.negative_zero"
+    prop = "C06"
+    file = "einx/_src/util/lru_cache.py"
+    module = "einx._src.util.lru_cache"
+    qual = "_is_negative_zero"
+    describe = "_is_negative_zero(x) holds exactly for floating-point x with x == 0 and the sign bit set (np.signbit trusted)"
+
+    def setup(self, eng, bound=None):
+        self.x = z3.Const("x", Obj)
+        self.isf = uf("is_float", Obj, B)(self.x)
+        self.isnf = uf("is_np.floating", Obj, B)(self.x)
+        self.eq0 = uf("eq_const[0]", Obj, B)(self.x)
+        self.sb = z3.Function("np_signbit", Obj, B)
+        eng.contracts["np.signbit"] = SContract(lambda e, p, av, kw: SBool(self.sb(av[0].t)), "np.signbit (trusted numpy)")
+        eng.contracts["bool"] = SContract(lambda e, p, av, kw: SBool(e.truth(av[0])))
+        return {"x": SObj(self.x)}, [], {}
+
+    def post(self, eng, out, p):
+        if isinstance(out, Return):
+            eng.oblige("post:result <=> floating-point, == 0, sign bit set", p, eng.truth(out.v) == z3.And(z3.Or(self.isf, self.isnf), self.eq0, self.sb(self.x)), "post")
+
+
+KERNELS = [TensorEq(), ConvertibleTensorEq(), OtherClass("Tensor", {"origin": "obj", "shape": "seq"}), OtherClass("ConvertibleTensor", {"origin": "obj", "concrete": "obj", "shape": "obj"}), TypedScalarEq(), NegativeZero()]
